@@ -64,13 +64,14 @@ class DecomposerStub:
             assume(k.z <= n.z)
             assume(k.z <= p.z)
         pr = () if X.cplx else ("real",)
-        U = tm.sym(f"U.{tag}", n, k, pr)
+        from ..sym.core import decide
+        # a square matrix with orthonormal columns is unitary (finite dimension)
+        U = tm.sym(f"U.{tag}", n, k, pr + (("unit", "inv") if decide(k.z == n.z) else ()))
         s = tm.sym(f"s.{tag}", k, k, ("diag", "real", "herm", "nonneg") + (("pos", "inv") if self.positive else ()))
-        V = tm.sym(f"V.{tag}", p, k, pr)
+        V = tm.sym(f"V.{tag}", p, k, pr + (("unit", "inv") if decide(k.z == p.z) else ()))
         for name, (l, r) in svdk_clauses(Xt.term, U, s, V, k).items():
             c.hyps.append((l, r, "SVD_k:" + name))
         # full-rank clauses of SVD_k (proved for Decomposer.fit under C01): the factor whose size equals k is unitary
-        from ..sym.core import decide
         full = False
         if decide(k.z == p.z):
             c.hyps.append((tm.mul(V, tm.H(V)), tm.I(p), "SVD_k: V V^H = I when k = n_features"))
